@@ -35,7 +35,7 @@ def event_as_json(sub_id, event):
     """
     if event.tags:
         tags = ",".join(
-            f"""[{",".join((encode_basestring(i) if isinstance(i, str) else str(i)) for i in t)}]"""
+            f"""[{",".join((encode_basestring(i) if isinstance(i, str) else json_dumps(i)) for i in t)}]"""
             for t in event.tags
         )
     else:
